@@ -8,6 +8,7 @@ plan and then the `finally` clause.
 import DefconModel.Lemmas.SaveSteps
 import DefconModel.Lemmas.SaveStepsRetry
 import DefconModel.Lemmas.SaveStepsFault
+import DefconModel.Lemmas.SaveStepsWitness
 
 namespace DefconModel.Props.C18
 open DefconModel DefconModel.SaveSteps
@@ -265,34 +266,7 @@ info memory holds, and no glyph memory does not hold; and the relation holds aga
 theorem save_persists (w : World) (h : Sync w) : Persisted (save .inPlace w) ∧ Sync (save .inPlace w) :=
   save_persists' h
 
-/-- a font just opened from a UFO with one component and no glyphs -/
-def wOpen : World :=
-  { font := { comps := [7], compDirty := [false], glyphs := [], glyphDirty := [], path := 1, format := 3, dirty := false },
-    disk := [(1, { comps := [7] })] }
-
-theorem sync_wOpen : Sync wOpen := by
-  refine ⟨rfl, rfl, ?_, ?_, ?_, ?_, ?_⟩
-  · intro i hi _
-    have : i = 0 := by simpa [wOpen] using hi
-    subst this; rfl
-  · intro g b hm; simp [wOpen, memGlyph] at hm
-  · intro g hg; simp [wOpen, own, getTarget, lookup] at hg
-  · intro g hg; simp [wOpen] at hg
-  · intro g hg; simp [wOpen, own, getTarget, lookup] at hg
-
-/-- the font after three glyphs were drawn and saved: UFO 1 lists glyphs 1, 2, 3 -/
-def wSaved : World := save .inPlace (edits wOpen [.setGlyph 1 5, .setGlyph 2 8, .setGlyph 3 9])
-
-theorem sync_wSaved : Sync wSaved := (save_persists _ (sync_edits _ sync_wOpen)).2
-
 example : reopen wSaved 1 = some ([7], [(1, 5), (2, 8), (3, 9)]) := by decide
-
-/-- the edit history of the witnesses: a NEW glyph 0, glyph 1 changed to something that cannot be written, glyph 2
-changed, glyph 3 deleted, a component changed -/
-def wEdited : World :=
-  edits wSaved [.setGlyph 2 88, .spoilGlyph 1 6, .setGlyph 0 4, .delGlyph 3, .setComp 0 70]
-
-theorem sync_wEdited : Sync wEdited := sync_edits _ sync_wSaved
 
 /-- non-vacuity of `save_persists`: a font in `Sync` with a changed component, a new glyph, changed glyphs and a pending
 deletion; after the save the UFO shows exactly that -/
@@ -377,6 +351,30 @@ theorem retry_after_safe_failure (w : World) (hs : Sync w) (k : Nat)
   unfold attempt
   rw [faultAt_none_of_sync h1 hnb]
 
+/-- **… followed by any retry sequence**: the same for a whole history of edits and failed in-place saves between two
+completed saves — as long as each failure is a harmless one (`Harmless`: safe prefix at each failed save, evaluated in
+the world that save started from), a save that finally runs through makes memory = disk. -/
+theorem retry_after_harmless_history (w : World) (hs : Sync w) (evs : List Event) (hh : Harmless w evs)
+    (hnb : NoBad (events w evs).font) :
+    attempt .inPlace (events w evs) = (save .inPlace (events w evs), true) ∧ Persisted (save .inPlace (events w evs)) := by
+  have h1 : Sync (events w evs) := sync_events evs hs hh
+  refine ⟨?_, (save_persists _ h1).1⟩
+  unfold attempt
+  rw [faultAt_none_of_sync h1 hnb]
+
+/-- a history with two failed saves: glyph 1 unwritable (the save stops at step 2), the user repairs glyph 1 but spoils the
+layer info (the next save stops at step 5, after the listing), repairs that: the third save persists everything -/
+example : Harmless wEditedB [.failedSave 2, .edit (.setGlyph 1 66), .edit (.spoilLayerInfo 3), .failedSave 5,
+    .edit (.setLayerInfo 4)] := by
+  simp only [Harmless, edit]
+  decide
+example : faultAt .inPlace wEditedB (plan wEditedB.font .inPlace) = some 2 ∧
+    faultAt .inPlace (events wEditedB [.failedSave 2, .edit (.setGlyph 1 66), .edit (.spoilLayerInfo 3)])
+      (plan (events wEditedB [.failedSave 2, .edit (.setGlyph 1 66), .edit (.spoilLayerInfo 3)]).font .inPlace) = some 5 := by
+  decide
+example : reopen (save .inPlace (events wEditedB [.failedSave 2, .edit (.setGlyph 1 66), .edit (.spoilLayerInfo 3),
+    .failedSave 5, .edit (.setLayerInfo 4)])) 1 = some ([70], [(2, 88), (1, 66)]) := by decide
+
 /-- Full statement (content faults): whenever a save stops at a content fault and the user then edits the font until
 nothing unwritable is left, the next save to the font's path runs through and makes memory = disk. -/
 def RetryAfterContentFaultPersists : Prop :=
@@ -387,40 +385,42 @@ def RetryAfterContentFaultPersists : Prop :=
 
 /-- **The part of it the code satisfies**: an IN-PLACE save that stops at a content fault — a component, a glyph or the
 layer info that cannot be written — when every glyph file written before the faulty step belonged to a glyph that
-`contents.plist` already listed (`writtenBeforeListed`: no NEW or renamed glyph sorts before the faulty one; always
-true for a faulty component or layer info... the latter because the listing is written by then).  Then the pending
-deletions are still recorded, and after any edits that leave nothing unwritable the next save performs them and ends
-with memory = disk. -/
+`contents.plist` already listed (`writtenBeforeListed`: no NEW or renamed glyph sorts before the faulty one; nothing to
+check when the faulty object is a component) — or the listing itself was written before it (the faulty object is the
+layer info).  Then the pending deletions are still recorded (`failed_layer_save_keeps_schedule`), and after any edits that
+leave nothing unwritable the next save runs through, performs them and ends with memory = disk. -/
 theorem retry_after_content_fault_persists_partial (w : World) (hs : Sync w) (k : Nat)
     (hf : faultAt .inPlace w (plan w.font .inPlace) = some k)
-    (hl : writtenBeforeListed w k = true) (es : List Edit)
+    (hl : writtenBeforeListed w k = true ∨ Step.writeContents ∈ (plan w.font .inPlace).take k) (es : List Edit)
     (hnb : NoBad (edits (failAt .inPlace w k) es).font) :
     (attempt .inPlace (edits (failAt .inPlace w k) es)).2 = true ∧
     Persisted (attempt .inPlace (edits (failAt .inPlace w k) es)).1 := by
-  have hl' : ∀ g, Step.writeGlyph g ∈ (plan w.font .inPlace).take k → g ∈ (own w).listing := by
-    intro g hg
-    have := List.all_eq_true.mp hl _ hg
-    simpa [listedIfGlyph] using this
-  obtain ⟨a, b⟩ := retry_after_safe_failure w hs k (safePrefix_of_fault k hf hl') es hnb
+  have hp : SafePrefix (own w) ((plan w.font .inPlace).take k) := by
+    rcases hl with hl | hl
+    · have hl' : ∀ g, Step.writeGlyph g ∈ (plan w.font .inPlace).take k → g ∈ (own w).listing := by
+        intro g hg
+        have := List.all_eq_true.mp hl _ hg
+        simpa [listedIfGlyph] using this
+      exact safePrefix_of_fault k hf hl'
+    · exact Or.inr hl
+  obtain ⟨a, b⟩ := retry_after_safe_failure w hs k hp es hnb
   rw [a]
   exact ⟨rfl, b⟩
 
-/-- the same edits without the new glyph: the glyph written before the faulty one (none here: glyph 1 is the first
-dirty glyph in order) is listed; the save fails at glyph 1, glyph 1 is corrected, the retry removes file 3 and
-persists everything -/
-def wEdited' : World := edits wSaved [.setGlyph 2 88, .spoilGlyph 1 6, .delGlyph 3, .setComp 0 70]
-
-theorem sync_wEdited' : Sync wEdited' := sync_edits _ sync_wSaved
-
-example : faultAt .inPlace wEdited' (plan wEdited'.font .inPlace) = some 2 ∧ writtenBeforeListed wEdited' 2 = true := by decide
-example : NoBad (edits (failAt .inPlace wEdited' 2) [.setGlyph 1 66]).font := by unfold NoBad; decide
-example : reopen (attempt .inPlace (edits (failAt .inPlace wEdited' 2) [.setGlyph 1 66])).1 1 =
+/-- `wEditedB`: the same edits without the new glyph: no glyph file is written before the faulty one (glyph 1 is the
+first dirty glyph in order); the save fails at glyph 1, glyph 1 is corrected, the retry removes file 3 and persists
+everything -/
+example : faultAt .inPlace wEditedB (plan wEditedB.font .inPlace) = some 2 ∧ writtenBeforeListed wEditedB 2 = true := by decide
+/-- … and in the history WITH the new glyph the hypothesis is what fails (glyph 0 is written first and not listed) -/
+example : writtenBeforeListed wEdited 3 = false ∧ Step.writeContents ∉ (plan wEdited.font .inPlace).take 3 := by decide
+example : NoBad (edits (failAt .inPlace wEditedB 2) [.setGlyph 1 66]).font := by unfold NoBad; decide
+example : reopen (attempt .inPlace (edits (failAt .inPlace wEditedB 2) [.setGlyph 1 66])).1 1 =
     some ([70], [(2, 88), (1, 66)]) := by decide
 /-- non-vacuity of `retry_after_safe_failure` at a layer-info content fault (the listing is written by then) -/
-example : SafePrefix (own (edits wEdited' [.setGlyph 1 6, .spoilLayerInfo 3]))
-    ((plan (edits wEdited' [.setGlyph 1 6, .spoilLayerInfo 3]).font .inPlace).take 6) ∧
-    faultAt .inPlace (edits wEdited' [.setGlyph 1 6, .spoilLayerInfo 3])
-      (plan (edits wEdited' [.setGlyph 1 6, .spoilLayerInfo 3]).font .inPlace) = some 6 := by decide
+example : SafePrefix (own (edits wEditedB [.setGlyph 1 6, .spoilLayerInfo 3]))
+    ((plan (edits wEditedB [.setGlyph 1 6, .spoilLayerInfo 3]).font .inPlace).take 6) ∧
+    faultAt .inPlace (edits wEditedB [.setGlyph 1 6, .spoilLayerInfo 3])
+      (plan (edits wEditedB [.setGlyph 1 6, .spoilLayerInfo 3]).font .inPlace) = some 6 := by decide
 
 /-- F19 with a REAL fault, in place: the new glyph 0 sorts before the unwritable glyph 1; its file is written and its
 flag cleared, the save stops at glyph 1 before the listing; glyph 1 is corrected, the retry succeeds — and does not
